@@ -27,7 +27,7 @@ def plan(tier, seed):
                   "model: setBusy on a hit": 8000,
                   "model: key in the last bucket of the table": 2000,
                   "mate: win score": 30000, "mate: loss score": 20000,
-                  "hammer: hits on a record of another thread in a bucket written by >= 2 threads": 2000000,
+                  "hammer: hits on a record of another thread in a bucket written by >= 2 threads": 500000,
                   "index: sizes with all 2^16 top-bit patterns x 7 low-bit patterns": 800,
                   "index: sizes that are not a power of two": 400000,
                   "alloc: table not a power of two": 10,
